@@ -608,6 +608,7 @@ type notedAddr struct {
 	typ      types.Type
 	size     Term
 	slice    bool // backing array of a slice with element type typ (else: one value of type typ)
+	reach    Term // path condition under which the address was noted (its ref term means nothing elsewhere)
 }
 
 type frameRec struct {
@@ -631,7 +632,7 @@ func (x *Exec) noteStructAddr(s *State, t types.Type, ref, off Term) {
 	if _, isSt := n.Underlying().(*types.Struct); !isSt {
 		return
 	}
-	key := n.Obj().Name() + "|" + ref.S + "|" + off.S
+	key := n.Obj().Name() + "|" + ref.S + "|" + off.S + "|" + s.Reach.S
 	if x.notedSeen[key] {
 		return
 	}
@@ -655,7 +656,7 @@ func (x *Exec) noteSlice(s *State, v Value) {
 	if !ok || len(v.L) != 4 {
 		return
 	}
-	key := "slice|" + types.TypeString(sl.Elem(), nil) + "|" + v.L[0].S + "|" + v.L[1].S + "|" + v.L[3].S
+	key := "slice|" + types.TypeString(sl.Elem(), nil) + "|" + v.L[0].S + "|" + v.L[1].S + "|" + v.L[3].S + "|" + s.Reach.S
 	if x.notedSeen[key] {
 		return
 	}
@@ -666,6 +667,10 @@ func (x *Exec) noteSlice(s *State, v Value) {
 // noteRegion: Go type safety — typed regions whose types are unrelated (neither
 // contains the other by value) are disjoint.
 func (x *Exec) noteRegion(s *State, a notedAddr) {
+	a.reach = s.Reach
+	if a.reach.S == "" {
+		a.reach = True
+	}
 	// allocation classes: a pointer to a standalone struct type (never embedded by
 	// value in another type of the package) points to the start of an allocation of
 	// exactly that type; a slice's backing array is never such an allocation unless
@@ -680,7 +685,7 @@ func (x *Exec) noteRegion(s *State, a notedAddr) {
 				x.clsStructs[n] = true
 				for _, b := range x.notedAll {
 					if b.slice && !containsArrayOf(n, b.typ, 0) && !typeContains(b.typ, n, 0) {
-						x.C.Assume(Implies(Not(Eq(b.ref, IntLit(0))), Not(Eq(app(SInt, "cls", b.ref), IntLit(x.E.typeID(n))))))
+						x.C.Assume(Implies(And(b.reach, Not(Eq(b.ref, IntLit(0)))), Not(Eq(app(SInt, "cls", b.ref), IntLit(x.E.typeID(n))))))
 					}
 				}
 			}
@@ -705,7 +710,7 @@ func (x *Exec) noteRegion(s *State, a notedAddr) {
 			continue
 		}
 		disjoint := Or(Not(Eq(a.ref, b.ref)), BVCmp("bvule", BVOp("bvadd", a.off, a.size), b.off), BVCmp("bvule", BVOp("bvadd", b.off, b.size), a.off))
-		x.C.Assume(Implies(And(s.Reach, Not(Eq(a.ref, IntLit(0))), Not(Eq(b.ref, IntLit(0)))), disjoint))
+		x.C.Assume(Implies(And(s.Reach, b.reach, Not(Eq(a.ref, IntLit(0))), Not(Eq(b.ref, IntLit(0)))), disjoint))
 		x.C.Trusted["Go type safety: memory regions of unrelated types (neither contains the other by value) are disjoint"] = true
 	}
 	x.notedAll = append(x.notedAll, a)
